@@ -53,6 +53,73 @@ func (w *recW) WriteHeader(s int) {
 	}
 }
 
+// zzPS is an immutable copy of the parameters a request reported, taken while the
+// CallFunc runs (the context behind types.Params goes back to the pool afterwards).
+type zzPS struct{ k, v []string }
+
+func (p *zzPS) Count() int {
+	if p == nil {
+		return 0
+	}
+	return len(p.k)
+}
+
+func (p *zzPS) Get(key string) (string, bool) {
+	if p == nil {
+		return "", false
+	}
+	for i, k := range p.k {
+		if k == key {
+			return p.v[i], true
+		}
+	}
+	return "", false
+}
+
+func (p *zzPS) Range(f func(k, v string)) {
+	if p == nil {
+		return
+	}
+	for i := range p.k {
+		f(p.k[i], p.v[i])
+	}
+}
+
+func (p *zzPS) equal(q *zzPS) bool {
+	if p.Count() != q.Count() {
+		return false
+	}
+	same := true
+	p.Range(func(k, v string) {
+		if x, ok := q.Get(k); !ok || x != v {
+			same = false
+		}
+	})
+	return same
+}
+
+// zzParamsLike: what the oracles need from a parameter set (a snapshot or a live context).
+type zzParamsLike interface {
+	Count() int
+	Get(string) (string, bool)
+}
+
+func zzSnapshot(ps types.Params) *zzPS {
+	out := &zzPS{}
+	ps.Range(func(k, v string) {
+		// keep the keys sorted: map iteration order must not show in observations
+		i := len(out.k)
+		out.k = append(out.k, k)
+		out.v = append(out.v, v)
+		for i > 0 && out.k[i] < out.k[i-1] {
+			out.k[i], out.k[i-1] = out.k[i-1], out.k[i]
+			out.v[i], out.v[i-1] = out.v[i-1], out.v[i]
+			i--
+		}
+	})
+	return out
+}
+
 type zzObs struct {
 	calls   int
 	id      int
@@ -63,7 +130,7 @@ type zzObs struct {
 	allow   string
 	router  string
 	path    string // req.URL.Path seen by the call
-	params  types.Params
+	params  *zzPS
 	hnode   types.Node
 	nparams int    // concurrent harnesses: copied during the call (the context goes back to the pool afterwards)
 	px      string // value of parameter "x" during the call
@@ -92,7 +159,7 @@ func zzCall(w http.ResponseWriter, r *http.Request, rt types.Route, h *hnd) {
 	o.id = h.id
 	o.chain = h.chain
 	o.hnode = h.node
-	o.params = rt.Params()
+	o.params = zzSnapshot(rt.Params())
 	o.router = rt.RouterName()
 	o.path = r.URL.Path
 	o.node = false
@@ -228,7 +295,7 @@ func zzValueOK(rule, v string) bool {
 
 // zzCheckRoute asserts the C01 agreement between a reported pattern, the
 // reported params and the request path.
-func zzCheckRoute(tag, pattern, path string, ps types.Params) {
+func zzCheckRoute(tag, pattern, path string, ps zzParamsLike) {
 	toks := zzTokenize(pattern)
 	s := ""
 	names := 0
